@@ -51,7 +51,9 @@ TRUSTED_EXTRA = ['Mathlib v4.33 real analysis (HasDerivAt, Real.arctan, Real.arc
                  'NumPy structural operations on object arrays (broadcast, reshape, index, stack) used to expand array '
                  'programs into per-element programs']
 
-KEYSETS = [{'t': []}, {'t': []}, {'p': [2]}, {'q': [3]}, {'t': [], 'p': [2]}, {'t': [], 'q': [3]}]
+KEYSETS = [{'t': []}, {'t': []}, {'p': [2]}, {'q': [3]}, {'t': [], 'p': [2]}, {'t': [], 'q': [3]},
+           # several keys with EQUAL denominators (buffers shared between keys would show)
+           {'t': [], 'u': []}, {'p': [2], 'r': [2]}, {'t': [], 'u': [], 'q': [3]}]
 H = 2.0 ** -9
 
 
@@ -61,7 +63,7 @@ for name, spec in OPS.items():
     for (ats, rt) in spec['sigs']:
         PROD.setdefault(rt, []).append((name, ats))
 
-WEIGHT = {'add': 2, 'sub': 2, 'smul': 3, 'sdiv': 3, 'dot': 3, 'norm': 2, 'cross': 3, 'atan2': 3, 'matmul': 3, 'matvec': 3,
+WEIGHT = {'from_ra_dec_length': 2, 'from_cylindrical': 2, 'from_ra_dec': 1, 'from_cylindrical2': 1, 'add': 2, 'sub': 2, 'smul': 3, 'sdiv': 3, 'dot': 3, 'norm': 2, 'cross': 3, 'atan2': 3, 'matmul': 3, 'matvec': 3,
           'inverse': 3, 'rot': 3, 'rotate': 3, 'qmul': 3, 'unit': 2, 'perp': 2, 'proj': 2, 'sep': 2, 'outer': 2, 'ediv': 2,
           'emul': 2, 'twovec': 2, 'to_matrix3': 2, 'from_scalars3': 2, 'from_scalars2': 1, 'powg': 2, 'powi': 2}
 
@@ -95,6 +97,11 @@ def rparams(name, ats, rng):
         p['form'] = rng.choice(['T', 'transpose'])
     if name == 'inverse':
         p['form'] = rng.choice(['inverse', 'recip'])
+    if name == 'from_ra_dec':
+        p['len'] = rng.choice(['none', 'one', 'num'])
+        p['c'] = rng.choice([1.0, 2.0, 0.5, -1.5])
+    if name in ('to_ra_dec_length', 'to_cylindrical'):
+        p['i'] = rng.randrange(3)
     if name == 'twovec':
         p['a1'] = rng.randrange(3); p['a2'] = (p['a1'] + rng.choice([1, 2])) % 3
     return p
@@ -597,6 +604,44 @@ def gen_cases(rng, tier):
                         tree = {'op': 'smul', 't': 'S', 'p': {'side': 'r'}, 'args': [first, tree]}
                     if smooth(tree, keys)[0]:
                         cases.append(mk_case(tree, keys, kind='reuse:%s:%s' % (form, f)))
+                        break
+    # 2h. constructor-like and multi-argument class methods: each argument carries ITS OWN keys, several keys per argument with
+    #     equal denominators, all subsets of (argument, key), structured exact values 0, +-1 that could trigger shortcuts
+    CTORS = [(n, ats) for n in ('from_ra_dec_length', 'from_ra_dec', 'from_cylindrical', 'from_cylindrical2', 'twovec', 'rot', 'from_parts', 'from_scalars3',
+                                'from_scalars2', 'from_rotation', 'withnorm', 'to_matrix3')
+             for (ats, _) in OPS[n]['sigs'][:1]]
+    for (name, ats) in CTORS:
+        rt = [r for (a, r) in OPS[name]['sigs'] if a == ats][0]
+        for keys in ({'t': [], 'u': []}, {'p': [2], 'r': [2]}, {'t': [], 'u': [], 'v': []}):
+            klist = sorted(keys)
+            for rep in range(12 if thorough else 5):
+                for _try in range(40):
+                    g = Gen(rng, keys, 1.0, reuse=0, pstruct=0.0, pcls=0.0)
+                    shape = rng.choice([(), (), (2,)])
+                    kids = []
+                    for i, at in enumerate(ats):
+                        exact1 = rng.random() < 0.35
+                        kid = g.fresh_leaf(at, shape, structured=False)
+                        if exact1:          # exact special values: 1, -1, 0 for scalars, unit / axis vectors otherwise
+                            ne = int(np.prod(shape, dtype=int))
+                            if at == 'S':
+                                kid['vals'] = [rng.choice([1.0, 1.0, -1.0, 0.0])] * ne
+                            else:
+                                kid['vals'] = [x for _ in range(ne) for x in g.structured_item(at)]
+                        # this argument's own key subset (rep 0: disjoint keys per argument)
+                        own = [klist[i % len(klist)]] if rep == 0 else [k for k in klist if rng.random() < 0.6]
+                        kid['derivs'] = {k: kid['derivs'][k] for k in own if k in kid['derivs']}
+                        kids.append(kid)
+                    if name in ('from_ra_dec_length', 'withnorm', 'from_cylindrical') and rep % 2 == 1:
+                        # the length / norm / radius argument EXACTLY 1 (scalar or array of ones) but carrying its keys
+                        k = {'from_ra_dec_length': 2, 'withnorm': 1, 'from_cylindrical': 0}[name]
+                        kids[k]['vals'] = [1.0] * len(kids[k]['vals'])
+                        if not kids[k]['derivs']:
+                            kk = rng.choice(klist); nd = int(np.prod(keys[kk], dtype=int))
+                            kids[k]['derivs'] = {kk: [round(rng.uniform(-2, 2), 4) for _ in range(len(kids[k]['vals']) * nd)]}
+                    tree = {'op': name, 't': rt, 'p': rparams(name, ats, rng), 'args': kids}
+                    if smooth(tree, keys)[0]:
+                        cases.append(mk_case(tree, keys, kind='ctor:' + name))
                         break
     # 2f. operands whose shapes differ only by unit leading axes (same size, different rank) and general broadcasting
     #     pairs, all key subsets, followed by a step that uses the leading axes of the result AND of its derivatives
